@@ -404,13 +404,16 @@ def _pdb_layout(x):
     dtitle = re.search(r'data\.title or "([^"]*)"', src).group(1)
     pr = lambda p: f"({p[0]}, {p[1]})"  # noqa: E731
     others = sl[("_parse_pdb_conect_line", "serial_str")]
+    kw = set(re.findall(r"key\.ljust\((\d+)\)", src)) | set(re.findall(r"rjust\((\d+) - len\(key\)\)", src))
+    if len(kw) != 1 or not re.search(r'rjust\(\d+ - len\(key\)\) \+ " "', src):
+        raise LookupError(f"PDB: widths of the multi-line record prefix not found ({kw})")
     return (
         f"def pdbL : Pdb.Layout :=\n  ⟨{ints[0][2]}, {strs[0][2]}, {strs[1][2]}, {ints[1][2]}, {len(gap4)}, {fixs[0][3]}, {fixs[0][4]}, "
         f"{fixs[3][3]}, {fixs[3][4]}, {strs[3][2]}, {[f for f in con if f[0] == 'int'][0][2]},\n   "
         f"{pr(sl[(pa, 'symbol')][0])}, {pr(sl[(pa, 'atname')][0])}, {pr(sl[(pa, 'resname')][0])}, {sl[(pa, 'chainid')][0][0]}, "
         f"{pr(sl[(pa, 'resnum')][0])}, {pr(co[0])}, {pr(co[1])}, {pr(co[2])}, {pr(sl[(pa, 'occupancy')][0])}, {pr(sl[(pa, 'bfactor')][0])}, "
         f"{sl[('load_one', '<expr>')][0][0]}, {pr(sl[('_parse_pdb_conect_line', 'iatom0')][0])}, [{', '.join(pr(p) for p in others)}],\n   "
-        f"{chars(dtitle)}, {chars(loaded)}⟩\n"
+        f"{chars(dtitle)}, {chars(loaded)}, {next(iter(kw))}⟩\n"
     )
 
 
